@@ -269,6 +269,39 @@ func (b *bridgeHist) mineLookalikeV0() {
 	}
 }
 
+// mineForUnregisteredKey mines perfectly formed deposits (both versions) that pay a key the relayer group never
+// registered: nothing but the registration check stands between them and a credit.
+func (b *bridgeHist) mineForUnregisteredKey() {
+	r := b.lh.r
+	var txs []*wireMsgTx
+	txs = append(txs, b.bc.CoinbaseTx(b.bc.Tip+1))
+	type pend struct {
+		idx int
+		d   *depTruth
+	}
+	var pends []pend
+	for k := 0; k < 3; k++ {
+		schn := k == 2
+		key := world.BtcPubKey(world.Derive(b.lh.c.Seed, "never-registered", len(b.malformed)*10+k), schn)
+		version := uint32(k % 2)
+		if schn {
+			version = 0
+		}
+		evm := b.newEvm()
+		outs, vout := b.depositOutputs(key, evm, version, 60_000, r.Intn(2))
+		if outs == nil {
+			continue
+		}
+		pends = append(pends, pend{len(txs), &depTruth{Vout: vout, Value: 60_000, Version: version, Key: key, Evm: evm, Malformed: true, Layout: 200 + k}})
+		txs = append(txs, b.bc.FillerTx(outs...))
+	}
+	blk := b.bc.Mine(txs)
+	for _, p := range pends {
+		p.d.Block, p.d.Index, p.d.Raw, p.d.Txid = blk, p.idx, blk.Raw[p.idx], blk.Txids[p.idx]
+		b.malformed = append(b.malformed, p.d)
+	}
+}
+
 // c03Gen queues one block's worth of Bitcoin activity, votes and deposit submissions.
 func c03Gen(b *bridgeHist, blk int, muts []depMutator) {
 	lh := b.lh
@@ -288,10 +321,13 @@ func c03Gen(b *bridgeHist, blk int, muts []depMutator) {
 	// Bitcoin side
 	switch {
 	case blk%9 == 7 && len(b.malformed) < 30:
-		if (blk/9)%2 == 0 {
+		switch (blk / 9) % 3 {
+		case 0:
 			b.mineMalformedV1()
-		} else {
+		case 1:
 			b.mineLookalikeV0()
+		default:
+			b.mineForUnregisteredKey()
 		}
 	case blk%9 == 4:
 		if b.depositBurst && r.Intn(2) == 0 {
